@@ -18,7 +18,7 @@ def sh(cmd, cwd=None, timeout=1800, extra=None):
     return p.returncode, p.stdout
 PKGDIR = {'compose': 'compose', 'compose_test': 'compose', 'react': 'flow/agent/react', 'react_test': 'flow/agent/react',
           'serialization': 'internal/serialization', 'serialization_test': 'internal/serialization', 'schema': 'schema', 'schema_test': 'schema',
-          'callbacks': 'internal/callbacks', 'host': 'flow/agent/multiagent/host'}
+          'callbacks': 'internal/callbacks', 'internal': 'internal', 'generic': 'internal/generic', 'host': 'flow/agent/multiagent/host'}
 wt = '/tmp/wt/keep-%s-%d' % (sid, os.getpid())
 rc, out = sh(['git', '-C', '/repo', 'worktree', 'add', '-q', '--detach', wt, 'HEAD'])
 res = {'seed': sid, 'property': prop, 'repo_head': sh('git -C /repo rev-parse --short HEAD')[1].strip(), 'at': time.strftime('%Y-%m-%d %H:%M:%S')}
